@@ -364,6 +364,26 @@ func genC06base(t *rapid.T) C06Case {
 		if gen.Chance(t, "long", 8) {
 			n = gen.Int(t, "nLong", 60, 160)
 		}
+		if gen.Chance(t, "longRun", 6) {
+			// a long run of one value whose length changes or which is interrupted
+			run := gen.Int(t, "run", 28, 70)
+			a := []val.V{1.0}
+			for i := 0; i < run; i++ {
+				a = append(a, 0.0)
+			}
+			a = append(a, 2.0)
+			b := []val.V{1.0}
+			run2 := run + gen.Pick(t, "delta", []int{-3, -1, 1, 1, 2})
+			for i := 0; i < run2; i++ {
+				b = append(b, 0.0)
+			}
+			b = append(b, 2.0)
+			if gen.Chance(t, "interrupt", 35) {
+				k := gen.Int(t, "at", 1, len(b)-2)
+				b = append(append(append([]val.V{}, b[:k]...), 3.0), b[k:]...)
+			}
+			return C06Case{A: val.JSON(a), B: val.JSON(b), Wrap: wrap}
+		}
 		if gen.Chance(t, "veryLong", 2) {
 			// longer than any plausible block size, edited at both ends
 			n = gen.Int(t, "nVeryLong", 300, 700)
